@@ -40,7 +40,7 @@ pub mod jsonwebtoken {
         { unimplemented!() }
         #[verifier::external_body]
         pub fn set_audience(&mut self, a: &[&String])
-            ensures final(self).aud == Some(a@.map_values(|s: &String| s@)),
+            ensures final(self).aud == Some(ref_strings(a@)),
                 final(self).algorithms == old(self).algorithms, final(self).leeway == old(self).leeway,
                 final(self).validate_exp == old(self).validate_exp, final(self).validate_nbf == old(self).validate_nbf,
                 final(self).validate_aud == old(self).validate_aud, final(self).required == old(self).required,
@@ -85,6 +85,7 @@ pub mod jsonwebtoken {
     pub fn dangerous_insecure_decode<T: JwtClaims>(token: &str) -> (r: Result<TokenData<T>, JwtError>)
         ensures r is Ok ==> r->Ok_0.header == hdr_of(token@) && r->Ok_0.claims.jclaims() == claims_of(token@),
     { unimplemented!() }
+    pub open spec fn ref_strings(v: Seq<&String>) -> Seq<Seq<char>> { v.map_values(|s: &String| s@) }
     pub struct TokenData<T> { pub header: Header, pub claims: T }
     impl Header {
         #[verifier::external_body]
